@@ -78,6 +78,7 @@ def roundtrip(layout):
     pm, cm = rig.producer.tpdo[1], rig.consumer.tpdo[1]
     pvars = _configure(pm, layout, cob)
     cvars = _configure(cm, layout, cob)
+    cm.subscribe()              # subscribing again (read() then save() does that) must not duplicate delivery
     calls = []
     cm.add_callback(lambda mp: calls.append(("a", mp)))
     cm.add_callback(lambda mp: calls.append(("b", mp)))
